@@ -165,6 +165,21 @@ def attr_names(expr: ast.AST) -> set[str]:
     return {x.attr for x in ast.walk(expr) if isinstance(x, ast.Attribute)}
 
 
+def shared_rule(res, fn, from_prop: str, from_rule: str, to_rule: str) -> None:
+    """run a rule that belongs to another property and re-label its obligations / findings"""
+    sub = type(res)(from_prop, res.prog, res.tier)
+    fn(res.prog, sub)
+    for o in sub.obligations:
+        o.rule = to_rule
+        res.obligations.append(o)
+        res.count(to_rule)
+    for f in sub.findings:
+        f.prop, f.rule = res.prop, to_rule
+        f.key = f.key.replace(from_rule, to_rule, 1)
+        res.findings.append(f)
+    res.functions_analysed |= sub.functions_analysed
+
+
 def single_def_resolver(fn: ast.AST):
     """defs-callback for eval_test: the single `name = expr` definition of a local."""
     from ..dataflow import all_def_values
